@@ -87,6 +87,46 @@ def write_inst_acc():
     return names
 
 
+def write_inst_init():
+    """Gen/InstInit.lean: per format, (1) the program look-ups of the setters its current-API initialisers
+    call (evaluation of findFn, both host byte orders), (2) the decidable obligation initsCheck (initialiser
+    records of Gen/Data.lean = C text of Gen/Cir.lean, every called setter checks out), (3) the resulting
+    statement about running the C text (inits_code)."""
+    gen = translate()
+    spec = spec_names()
+    src = ["/- REGENERATED instance obligations: initialiser records (Gen/Data.lean) = C text (Gen/Cir.lean) -/",
+           "import O1722.Refine.Inits", "import O1722.Gen.Data", "", "namespace O1722.Inst.Init", "open O1722 O1722.C O1722.Refine", ""]
+    names = []
+    by_file = {f["file"]: f for f in gen.get("files", [])}
+    for f in spec["formats"]:
+        n = lname(f["file"])
+        fl = "fns_" + re.sub(r"[^A-Za-z0-9_]", "_", os.path.splitext(os.path.basename(f["file"]))[0])
+        gf = by_file.get(os.path.join(common.REPO, f["file"])) or by_file.get(f["file"]) or \
+            next((x for x in gen.get("files", []) if x["file"].endswith(f["file"])), None)
+        callees = []
+        for fn in (gf or {}).get("functions", []):
+            if fn.get("kind") == "init":
+                for st in fn.get("steps", []):
+                    if st.get("op") in ("call", "call1") and st["fn"] not in callees:
+                        callees.append(st["fn"])
+        lk = "[" + ", ".join('("%s", Gen.Cir.%s)' % (c, re.sub(r"[^A-Za-z0-9_]", "_", c)) for c in callees) + "]"
+        for c in callees:
+            ci = re.sub(r"[^A-Za-z0-9_]", "_", c)
+            if ("find_" + ci) not in names:
+                src.append("set_option maxRecDepth 16384 in")
+                src.append('theorem find_%s (e : Endian) : findFn (Gen.Cir.prog e) "%s" = some Gen.Cir.%s := by cases e <;> rfl' % (ci, c, ci))
+                names.append("find_" + ci)
+        src.append("theorem lookups_%s (e : Endian) : lookupsOK e %s := %s" %
+                   (n, lk, "⟨" + ", ".join(["find_%s e" % re.sub(r"[^A-Za-z0-9_]", "_", c) for c in callees] + ["trivial"]) + "⟩" if callees else "trivial"))
+        src.append("theorem inits_%s : initsCheck Gen.%s Gen.Cir.%s %s = true := by decide +kernel" % (n, n, fl, lk))
+        src.append("")
+        names += ["lookups_%s" % n, "inits_%s" % n]
+    src += ["end O1722.Inst.Init", ""]
+    with common.Lock("lake"):
+        write_if_changed(os.path.join(LEAN, "O1722", "Gen", "InstInit.lean"), "\n".join(src))
+    return ["O1722.Inst.Init." + x for x in names if not x.startswith("find_")]
+
+
 def refine_stage(rep, prop, modules, theorems, what):
     """Code-level stage: rebuild the refinement modules (proofs that the C text serialised into
     Gen/Cir.lean, run by the C semantics of CSem/Eval.lean, equals the hand Model and satisfies the
@@ -97,6 +137,8 @@ def refine_stage(rep, prop, modules, theorems, what):
     log = ""
     if "O1722.Gen.InstAcc" in modules:
         theorems = list(theorems) + write_inst_acc()
+    if "O1722.Gen.InstInit" in modules:
+        theorems = list(theorems) + write_inst_init()
     if gen.get("failed") or gen.get("cir", {}).get("failed"):
         failed = list(theorems)
         log = gen.get("failed") or gen["cir"]["failed"]
@@ -282,6 +324,11 @@ CODE_LEVEL = {
             ["O1722.Refine.Avtp_SetField_refines", "O1722.Refine.C02_code", "O1722.Refine.setter_code", "O1722.Refine.C02_code_dedicated"],
             "the C text of Avtp_SetField = Model.setFieldLog, hence = the reference write of the value into the field's bits; and the C "
             "text of every generic / dedicated setter of every format performs the reference write of its Spec field"),
+    "C04": (["O1722.Gen.InstInit"], ["O1722.Refine.init_code", "O1722.Refine.inits_code", "O1722.Refine.setter_body_code"],
+            "the C text of every current-API initialiser (NULL guard, memset, constant field writes through the generic or a "
+            "dedicated setter, each resolved in the program) leaves the memory Init.run describes — the object C04_format proves "
+            "canonical; per-format obligations inits_<format> / lookups_<format> (the legacy initialisers stay with the translator's "
+            "shape recognition)"),
     "C11": (["O1722.Refine.Props"], ["O1722.Refine.C11_code"],
             "the C text of Avtp_GetField/SetField on a NULL PDU or an out-of-range identifier: 0 / no effect, no memory access"),
     "C14": (["O1722.Refine.Props"], ["O1722.Refine.C14_code"],
